@@ -48,7 +48,7 @@ def describe(g, o):
 
 
 def family(prog, f):
-    return [f] + [prog.fns[p] for p in prog.extent(f) if p in prog.fns and prog.fns[p].root == f.path and p != f.path]
+    return prog.family(f)
 
 
 def preds(prog, f):
